@@ -1,6 +1,7 @@
 """C03 — Ok implies the entire input was one well-formed expression (DESIGN §5 C03).
  a  Eof gate in parse()                      b  error discipline (every Result is ?-propagated or returned)
  c  bracket / arity / comma tables           d  vocabulary = availability matrix, both directions"""
+import re
 from .. import spec, thir as T
 from ..pat import M, parse as P, unify, subterms
 from ..tables import show_tail, summarise
@@ -69,13 +70,13 @@ def main(tier):
         # b. error discipline
         nsites = [0]
         has_var0 = any(a == "var" and ev in evs for (a, evs) in spec.FUNCTIONS.values())
-        for fname in ("parse", "generate_ast", "function_static_arguments", "parse_number",
-                      "implicit_multiply", "get_enclosed_elements_with_impl_mult", "check_paren", "convert_token_to_node", "get_next_token", "new") + (("function_arguments", "find_item_list") if has_var0 else ()):
-            f = m.tb.fn("::parser::Parser::" + fname)
-            if f is None:
+        for fname in ("parse", "generate_ast", "parse_number", "convert_token_to_node", "get_next_token", "new"):
+            if m.tb.fn("::parser::Parser::" + fname) is None:
                 run.ob(False, "anchor|%s|%s" % (ev, fname), "C03 anchor function present", ev, "parser function %s not found" % fname)
-                continue
-            t = m.tb.fn_term(f)
+        pfs = [g_ for g_ in F.fns if g_.evaluator == ev and re.search(r"::parser::Parser::\w+$", g_.key) and g_.kind != "Closure" and g_.thir and not g_.derived]
+        for f in pfs:
+            fname = f.key.split("::")[-1]
+            t = m.tb.parser_term(f)
             for s in subterms(t):
                 if isinstance(s, tuple) and s and s[0] == "call" and isinstance(s[1], str) and s[1].startswith("P."):
                     nsites[0] += 1
@@ -89,21 +90,11 @@ def main(tier):
                     run.ob(False, "discipline|%s|%s|let_" % (ev, fname), "C03-b no result is discarded with `let _ =`", f.key, T.show(s)[:160])
         run.ob(True, "discipline|%s" % ev, "C03-b", ev, sample={"evaluator": ev, "parser_call_sites_checked": nsites[0]})
         run.distinct.add("discipline-sites|%s|%d" % (ev, nsites[0]))
-        fe = F.by_key.get("%s::%s" % (ev, ev))
-        te = m.tb.fn_term(fe)
-        want = "(seq (let ?s (call Iterator::collect::<String> (call str::split_whitespace (param ?e)))) (let ?p (try (call P.new (var ?s) (Some (param ?ph))))) (let ?a (try (call P.parse (var ?p)))) ...)"
-        e = M(want, te)
-        okent = False
-        if e is not None:
-            rest = te[4:]
-            ev_call = ("try", ("call", "Ast.eval", ("var", e["?a"])))
-            okent = rest == (("Ok", ev_call),) or (len(rest) == 2 and M(("let", "?r", ev_call), rest[0]) is not None and rest[1] == ("Ok", ("var", rest[0][1])))
-        run.ob(okent, "entry-chain|%s" % ev, "C03-b entry point is strip -> Parser::new? -> parse? -> eval? -> Ok", fe.key, T.show(te)[:300],
-               sample={"evaluator": ev, "entry_chain": "split_whitespace/collect -> new? -> parse? -> eval? -> Ok"})
+        # the entry chain itself is the shared premise `entry-chain` (common.setup)
         # lexer None -> Err in new / get_next_token
         for fname in ("new", "get_next_token"):
             f = m.tb.fn("::parser::Parser::" + fname)
-            t = m.tb.fn_term(f)
+            t = m.tb.parser_term(f)
             hit = False
             for s in subterms(t):
                 e = M(("match", NEXT_TOK, (("pvar", "Option::Some", ("bind", "?b")), ("var", "?b")), (("pvar", "Option::None"), ("return", ("Err",)))), s)
